@@ -28,6 +28,15 @@ func Main(prop string) {
 			run.Inconclusive("face reference not loadable")
 			return
 		}
+		// a CPU reading above the budget is re-measured: the verdict is the minimum of
+		// three runs (first-touch page faults of a freshly restored VM are charged to the
+		// thread clock once, an algorithmic blow-up every time)
+		for k := 0; k < 2 && ex.CPU > cpuBudget && ex.Panic == nil; k++ {
+			run.Cover("cpu-remeasured")
+			if ex2 := c.Execute(); ex2.CPU < ex.CPU {
+				ex.CPU = ex2.CPU
+			}
+		}
 		run.Eval(1)
 		fs := judge(prop, c, &ex)
 		classify(run, prop, c, &ex)
